@@ -32,6 +32,7 @@ func (c *cont) Pop() item {
 }
 
 type ad struct {
+	flip    int
 	flavour string
 	h       heapz.Heap[item]
 	other   heapz.Heap[item] // source of the foreign handle 0
@@ -44,7 +45,20 @@ type ad struct {
 }
 
 func (a *ad) Reset(s json.RawMessage) error {
-	a.h = heapz.New[item](0, less)
+	// three ways to arrive at an empty heap ordered by `less`: New; New with another comparator, re-initialised;
+	// the zero value, initialised
+	a.flip++
+	switch a.flip % 3 {
+	case 0:
+		a.h = heapz.New[item](0, less)
+	case 1:
+		a.h = heapz.New[item](4, func(x, y item) bool { return x.P > y.P })
+		a.h.Init(nil, less)
+	default:
+		var z heapz.Heap[item]
+		a.h = z
+		a.h.Init([]item{}, less)
+	}
 	a.other = heapz.New[item](0, less)
 	a.foreign = a.other.Push(item{P: 1, H: 0})
 	a.el = map[int]*heapz.Element[item]{}
